@@ -259,7 +259,7 @@ def run_columnless_operand(chk, spec):
 		chk.fail("every row of a table joined to a table without rows comes back once", f"join/rows-lost/columnless-operand/{form}", f"{spec!r}: {form} gave {short(got if got is not None else r, 160)}, expected the rows of T {exp!r}")
 
 
-RUNNERS = {"history_keys": run_history_keys, "fan_in": run_fan_in, "columnless_operand": run_columnless_operand, "unique_keys_expect": c09.run_unique_keys_expect, "repeated_name_after_other_table": c09.run_repeated_name_after_other_table, "crossed_and_kept": c09.run_crossed_and_kept, "special_keys": c09.run_special_keys, "label_accessor": c09.run_label_accessor, "repeated_key_column": c09.run_repeated_key_column, "empty_chain": c09.run_empty_chain, "self_join": c09.run_self_join, "derived_right": c09.run_derived_right, "join": run_join, "exhaustive": c09.run_exhaustive, "history": run_history, "relations": run_relations, "unmatched_order": run_unmatched_order, "chain": run_chain}
+RUNNERS = {"history_keys": run_history_keys, "fan_in": run_fan_in, "columnless_operand": run_columnless_operand, "unique_keys_expect": c09.run_unique_keys_expect, "repeated_name_after_other_table": c09.run_repeated_name_after_other_table, "hash_equal_right_tables": c09.run_hash_equal_right_tables, "crossed_and_kept": c09.run_crossed_and_kept, "special_keys": c09.run_special_keys, "label_accessor": c09.run_label_accessor, "repeated_key_column": c09.run_repeated_key_column, "empty_chain": c09.run_empty_chain, "self_join": c09.run_self_join, "derived_right": c09.run_derived_right, "join": run_join, "exhaustive": c09.run_exhaustive, "history": run_history, "relations": run_relations, "unmatched_order": run_unmatched_order, "chain": run_chain}
 RUNNERS["recompute"] = recompute.runner("C10")
 
 
